@@ -62,7 +62,7 @@ func Spacings(tier string) []world.Spacing {
 func FamiliesC03(tier string) []world.Family {
 	l2Len, fieldsLen, fullLen, spacedLen := 6, 3, 6, 4
 	if tier == "thorough" {
-		l2Len, fieldsLen, fullLen, spacedLen = 7, 4, 7, 5
+		l2Len, fieldsLen, fullLen, spacedLen = 8, 4, 7, 5
 	}
 	return []world.Family{
 		{ // sparse L2 stores: the short L2 histories under every L2 block numbering of Spacings
